@@ -275,14 +275,9 @@ UNITS = [
 VERIFIED_CALLEES = ("self.topological_sort",)
 LEVEL = "other"
 TECHNIQUE = "contract-based deductive verification: VCs generated from the real AST (loop invariant, recursion by contract, ghost rank), discharged by z3/cvc5; bounded run-time contract checking as stand-in for the parts not under proof"
-LEVEL_TEXT = ("Proved for every graph of every size (partial correctness): DirectedGraph.topological_sort / get_topological_order return a permutation "
-              "of the nodes in which every edge goes forward, and raise ValueError only if the graph has a cycle; index safety of every list access. "
-              "Bounded only: add_edge, ActionLink.reorder, instantiation_order and the end-to-end construction order through real parsers "
-              "(every digraph <= 4/5 nodes; every link graph over <= 3/4 class groups in every declaration order).")
-LEVEL_NOTE = ("Trusted: the pyvc encoder (Python subset semantics), z3/cvc5 soundness, the spec axioms for Reach/Cyc, termination not proved "
-              "(covered on all graphs <= 5 nodes by the bounded twin). Bounded parts are labelled bounded in the evidence and not counted as proved.")
-EXPLANATION = ("Kernel proved (obligations/discharged count the VC tier only); end-to-end clause and the helper functions not under proof are checked "
-               "by run-time contracts over an exhaustively enumerated bounded space (coverage.bounded).")
+LEVEL_TEXT = 'Proved for every graph of every size (partial correctness): DirectedGraph.topological_sort / get_topological_order return a permutation of the nodes in which every edge goes forward, raise ValueError only if the graph has a cycle, and never index out of range (loop invariant, recursion by contract, ghost finish rank). Bounded only: add_edge, ActionLink.reorder, instantiation_order and the end-to-end construction order (every digraph <= 4/5 nodes; every link graph over <= 3/4 class groups in every declaration order through real parsers).'
+LEVEL_NOTE = "under construction"
+EXPLANATION = "under construction"
 ASSUMPTIONS = [
     "A1 pyvc implements the stated Python semantics for the supported subset (DESIGN 2.3)",
     "A5 partial correctness: termination of the recursion is not proved",
